@@ -9,6 +9,7 @@ Open Scope string_scope.
 Open Scope N_scope.
 
 Section Classes.
+  Variable fx : fixes.                      (* the validator variants in force (Model/Parse.v) *)
   Variable b : bytes.                       (* the frame: bytes within the length *)
   Let n := List.length b.
   Let et := word_at b 12.
@@ -22,22 +23,43 @@ Section Classes.
   (* finding parse-ip4-ihl: IPv4 with IHL*4 < 20 accepted (the other tests of IsValid pass) *)
   Let ihl := N.to_nat (4 * (byte_at b 14 mod 16)).
   Let tl := N.to_nat (word_at b 16).
+  (* IP4.IsValid as it was *)
   Definition k_ip4_accepts : bool :=
     Nat.leb 14 n && unicast && (et =? 2048) && Nat.leb 20 l3len && Nat.leb ihl l3len && Nat.leb tl l3len.
-  Definition k_ip4_ihl : bool := k_ip4_accepts && Nat.ltb ihl 20.
+  Definition k_ip4_ihl : bool := negb (fx_ip4 fx) && k_ip4_accepts && Nat.ltb ihl 20.
   (* finding parse-ip4-totallen: IHL fine, TotalLen < IHL*4 accepted *)
-  Definition k_ip4_totallen : bool := k_ip4_accepts && Nat.leb 20 ihl && Nat.ltb tl ihl.
+  Definition k_ip4_totallen : bool := negb (fx_ip4 fx) && k_ip4_accepts && Nat.leb 20 ihl && Nat.ltb tl ihl.
 
   (* finding parse-ip6-trailing: IPv6 whose payload length is consistent with the bytes
      present but followed by trailing bytes (padding, FCS) is rejected: `==` for `<=` *)
   Definition k_ip6_trailing : bool :=
+    negb (fx_ip6 fx) &&
     Nat.leb 14 n && unicast && (et =? 34525) && Nat.leb 40 l3len &&
     Nat.ltb (40 + N.to_nat (word_at b 18)) l3len.
+
+  (* finding parse-tcp-doff: Parse reaches the TCP case with 20 bytes or more and TCP.IsValid (len >= 20 only)
+     accepts a data offset below 5 words or beyond the bytes present (length-inconsistent TCP header) *)
+  Definition bad_doff (off : nat) : bool :=
+    Nat.leb 20 (n - off) &&
+    (let d := N.to_nat (4 * (byte_at b (off + 12) / 16)) in Nat.ltb d 20 || Nat.ltb (n - off) d).
+  (* the IP layer in force lets the frame through *)
+  Definition ip4_passes : bool :=
+    Nat.leb 20 l3len && Nat.leb ihl l3len && Nat.leb tl l3len &&
+    (if fx_ip4 fx then Nat.leb 20 ihl && Nat.leb ihl tl else true).
+  Definition ip6_passes : bool :=
+    Nat.leb 40 l3len &&
+    (if fx_ip6 fx then Nat.leb (N.to_nat (word_at b 18) + 40) l3len
+     else u16 (word_at b 18 + 40) =? N.of_nat l3len).
+  Definition k_tcp_doff : bool :=
+    negb (fx_tcp fx) && Nat.leb 14 n && unicast &&
+    (((et =? 2048) && ip4_passes && (byte_at b 23 =? 6) && bad_doff (14 + ihl))
+     || ((et =? 34525) && ip6_passes && (byte_at b 20 =? 6) && bad_doff 54)).
 
   Definition known_C02 : option string :=
     if k_ip4_ihl then Some "parse-ip4-ihl"
     else if k_ip4_totallen then Some "parse-ip4-totallen"
     else if k_ip6_trailing then Some "parse-ip6-trailing"
+    else if k_tcp_doff then Some "parse-tcp-doff"
     else None.
 
 End Classes.
